@@ -75,6 +75,7 @@ void Ctx::begin_case() {
     case_labels_.clear();
     case_nontrivial_ = false;
     case_hash_ = 0;
+    case_result_ = 0;
     case_sample_.clear();
 }
 
@@ -157,7 +158,15 @@ struct Outcome {
     bool failed = false;
     bool known = false;
     std::string sig, msg;
+    uint64_t digest = 0;  // fingerprint of what the case computed (used by the uninitialised-memory differential)
 };
+
+static int g_stack_fill = -1;  // VERIF_STACK_FILL: overwrite the stack area below the property with this byte before each case
+__attribute__((noinline)) static void stack_fill(int byte) {
+    volatile uint8_t area[96 * 1024];
+    for (size_t i = 0; i < sizeof area; i += 1) area[i] = (uint8_t)byte;
+    asm volatile("" ::: "memory");
+}
 
 static std::string demangle(const char* n) {
     int st = 0;
@@ -170,9 +179,11 @@ static std::string demangle(const char* n) {
 static Outcome run_case(Ctx& ctx, const uint8_t* d, size_t n) {
     Outcome o;
     Src s(d, n);
+    if (g_stack_fill >= 0) stack_fill(g_stack_fill);
     ctx.begin_case();
     try {
         prop(s, ctx);
+        o.digest = ctx.case_digest();
         ctx.end_case();
         return o;
     } catch (const PropFail& f) {
@@ -185,6 +196,7 @@ static Outcome run_case(Ctx& ctx, const uint8_t* d, size_t n) {
         o.failed = true;
         o.sig = std::string(PROP_ID) + ":escaped-exception:unknown";
     }
+    o.digest = hash_mix(hash_str(o.sig), 0xfa11);
     if (ctx.is_known(o.sig)) {
         o.known = true;
         ctx.known_hit(o.sig);
@@ -371,7 +383,7 @@ static int usage() {
 }
 
 int main(int argc, char** argv) {
-    std::string mode, file, out, known, corpus, work = ".";
+    std::string mode, file, out, known, corpus, trace, work = ".";
     uint64_t seed = 1, cases = 1000, worker = 0, workers = 1, max_seconds = 0, wlo = 0, whi = ~0ULL;
     size_t maxlen = 0;
     int tier = 0;
@@ -397,12 +409,15 @@ int main(int argc, char** argv) {
         else if (a == "--tier") tier = next() == "thorough" ? 1 : 0;
         else if (a == "--known") known = next();
         else if (a == "--corpus") corpus = next();
+        else if (a == "--trace") trace = next();
         else if (a == "--work") work = next();
         else return usage();
     }
     if (mode.empty()) return usage();
     Ctx& ctx = g_ctx;
     ctx.tier = tier;
+    if (const char* sf = getenv("VERIF_STACK_FILL")) g_stack_fill = atoi(sf) & 0xff;
+    FILE* trace_f = trace.empty() ? nullptr : fopen(trace.c_str(), "wb");
     if (!known.empty()) ctx.load_known(known.c_str());
 
     if (mode == "merge") {
@@ -434,7 +449,7 @@ int main(int argc, char** argv) {
             printf("REPLAY-FAIL%s sig=%s msg=%s\n", o.known ? "-KNOWN" : "", o.sig.c_str(), one_line(o.msg).c_str());
             return o.known ? 4 : 1;
         }
-        printf("REPLAY-OK\n");
+        printf("REPLAY-OK digest=%016llx\n", (unsigned long long)o.digest);
         return 0;
     }
 
@@ -538,6 +553,7 @@ int main(int argc, char** argv) {
             gen_bytes(rng, v, maxlen, pool);
             publish_current(v.data(), v.size());
             Outcome o = run_case(ctx, v.data(), v.size());
+            if (trace_f) { uint32_t n = (uint32_t)v.size(); fwrite(&n, 4, 1, trace_f); if (n) fwrite(v.data(), 1, n, trace_f); fwrite(&o.digest, 8, 1, trace_f); }
             if (o.failed && !o.known) { handle_failure(v, o); rc = 3; break; }
             // remember cases that produced a new non-trivial hash (cheap evolutionary search)
             if (!o.failed && !v.empty()) {
@@ -583,6 +599,7 @@ int main(int argc, char** argv) {
         rc = 5;
     }
 #endif
+    if (trace_f) fclose(trace_f);
     ctx.dump(g_stats_path.c_str());
     {
         std::string mp = work + "/meta." + std::to_string(worker) + ".json";
